@@ -60,7 +60,7 @@ def run_case(data):
         return output_side(ch, r)
     sc = bytesgen.build(ch, big_frames=True)
     frames = sc.frames
-    mut = ch.weighted([(5, 'none'), (3, 'frames'), (2, 'bytes'), (1, 'flood'), (1, 'oversize')])
+    mut = ch.weighted([(5, 'none'), (3, 'frames'), (2, 'bytes'), (1, 'flood'), (1, 'oversize'), (1, 'cont')])
     start = 0 if sc.client else 1
     if mut == 'frames':
         frames, labs = bytesgen.mutate_frames(ch, frames, start)
@@ -75,6 +75,11 @@ def run_case(data):
                                   'headers': wire.raw(wire.HEADERS, wire.F_END_HEADERS, 101, payload)}[kind]]
         tail_cuts = [1, 2, 3, extra, extra + 1, max(1, extra - 1), 3000]
         r.labels.add('over-long-last-frame')
+    if mut == 'cont':
+        # a header block in 63..70 (or many more) frames: where the limit on CONTINUATION frames bites does not
+        # depend on where the calls end
+        frames = list(frames) + bytesgen.continuation_flood(ch, ch.pick([1, 3, 5, 7, 9, 2]))
+        r.labels.add('long-continuation-sequence')
     if mut == 'flood':
         # more small frames than the interpreter allows nested calls: one receive_data call or many, the same
         flood, fk = bytesgen.frame_flood(ch)
